@@ -10,6 +10,7 @@ byte on every run.  Helper lemmas: Lemmas/{LexInv,LexLoop,NoStart,WsFilterLemmas
 import TeraModel.Lemmas.C08Lemmas
 import TeraModel.Lemmas.Forward
 import TeraModel.Lemmas.Respell
+import TeraModel.Model.SetDelims
 import TeraModel.Lemmas.RawLemmas
 import TeraModel.Lemmas.TrimLemmas
 import TeraModel.Lemmas.LexProgress
@@ -281,6 +282,41 @@ example : ∃ segs : List Seg,
       | [] => simp [Generated.rawName] at h
       | [_] => simp [Generated.rawName] at h
       | _ :: _ :: _ => simp at hl; omega
+
+/-! ## A rejected delimiter set has no effect -/
+
+/-- **rejected_delimiters_have_no_effect.**  `set_delimiters` answers `Err` exactly when it leaves
+the installed set untouched: a rejected set (wrong byte length, colliding start delimiters, or any
+set once templates exist) is never stored, an accepted one is.  Re-proved on every run against the
+statement order the translator reads from tera.rs (`validate()?` before the assignment). -/
+theorem rejected_delimiters_have_no_effect (hasTemplates : Bool) (cur new : Delims) :
+    ((setDelimiters hasTemplates cur new).1 = false → (setDelimiters hasTemplates cur new).2 = cur) ∧
+    ((setDelimiters hasTemplates cur new).1 = true →
+      (setDelimiters hasTemplates cur new).2 = new ∧ new.validate = true ∧ hasTemplates = false) := by
+  have h1 : Generated.setDelimsValidatesFirst = true := by decide
+  have h2 : Generated.setDelimsRefusesAfterAdd = true := by decide
+  unfold setDelimiters
+  cases hasTemplates <;> cases hv : new.validate <;> simp [h1, h2, hv]
+
+/-- hence the set in force after any history of calls on a fresh instance is the last accepted one
+(or the default): every installed set passed `validate` -/
+theorem installed_delimiters_validated (calls : List Delims) :
+    (delimsAfter calls).validate = true := by
+  unfold delimsAfter
+  have key : ∀ (cs : List Delims) (cur : Delims), cur.validate = true →
+      (cs.foldl (fun cur new => (setDelimiters false cur new).2) cur).validate = true := by
+    intro cs
+    induction cs with
+    | nil => intro cur h; exact h
+    | cons c tl ih =>
+      intro cur h
+      simp only [List.foldl_cons]
+      apply ih
+      have := rejected_delimiters_have_no_effect false cur c
+      cases hr : (setDelimiters false cur c).1 with
+      | false => rw [this.1 hr]; exact h
+      | true => rw [(this.2 hr).1]; exact (this.2 hr).2.1
+  exact key calls _ (by decide)
 
 /-! ## Non-vacuity and spot checks -/
 
